@@ -29,6 +29,14 @@ CHECKS.update({
              text="Generated-input search with a deterministic cost oracle: growth under doubling <= 8 (cubic) and steps <= 150*len*(1+depth) for namespace depth, template depth, mixed and size families built from random seeds. Samples finitely many sizes (<=16/32 deep, <=40/80 declarations).",
              note="Trusted: the counter wrapper around ParserElement._parseNoCache installed by the harness process (no repo hook). Wall-clock is recorded, never decides.", ref="3/C19"),
 })
+CHECKS.update({
+ 'C03': dict(tech="Hypothesis model-based generation x option sets + reference-model oracle: multiset of binding records scanned from the emitted pybind11 TU == records computed from the instantiated model; submodule creation order",
+             text="Generated-input search against an independent reference inventory (names, submodule placement, overload signatures, keyword escaping, ignore list, top namespace at any depth, serialization flag). Exactly-one is checked by multiset equality. Cannot show absence.",
+             note="Trusted: vlib.pyscan (scanner, validated on the 9 golden TUs and, for executable modules, by C04), vlib.refpy, vlib.refinst.", ref="3/C03"),
+ 'C15': dict(tech="Hypothesis metamorphic testing: ignore(X) == delete(X) (pybind byte-for-byte, MATLAB modulo rank-normalised ids); deleting an unrelated declaration leaves all other statements/classdefs unchanged",
+             text="Metamorphic generated-input search over classes (global/namespaced, templated, virtual, with enums/serialize) and unrelated declarations, both serialization settings. Both sides come from gtwrap.",
+             note="Trusted: vlib.matnorm id normalisation; the 'nothing else depends on X' side condition computed on the model (no typedef names X).", ref="3/C15"),
+})
 PENDING = {}
 
 def main():
